@@ -6,6 +6,26 @@ pub use guard::{guard, Caught};
 pub use prng::Rng;
 pub use rec::*;
 
+/// A destination that runs full: it takes `cap` bytes in all and answers every later `write` with an error (a full disk, a quota, a fixed
+/// buffer, a closed pipe). A writer that reports success on it has lost data unless everything fitted.
+pub struct FullDisk {
+    pub inner: Vec<u8>,
+    pub cap: usize,
+}
+impl std::io::Write for FullDisk {
+    fn write(&mut self, buf: &[u8]) -> std::io::Result<usize> {
+        let room = self.cap.saturating_sub(self.inner.len());
+        if room == 0 && !buf.is_empty() {
+            return Err(std::io::Error::new(std::io::ErrorKind::Other, "no space left on device"));
+        }
+        let n = buf.len().min(room);
+        self.inner.extend_from_slice(&buf[..n]);
+        Ok(n)
+    }
+    fn flush(&mut self) -> std::io::Result<()> {
+        Ok(())
+    }
+}
 /// A legal `std::io::Write` destination that accepts at most `max` bytes per call (as pipes, sockets and block-limited sinks do):
 /// code that calls `write` where `write_all` is meant loses data on it.
 pub struct ShortWriter {
@@ -21,4 +41,43 @@ impl std::io::Write for ShortWriter {
     fn flush(&mut self) -> std::io::Result<()> {
         Ok(())
     }
+}
+
+
+/// Run `f(path)` with `path` a NAMED PIPE through which a second thread delivers `bytes`, cut at the (ascending) offsets `cuts` into chunks
+/// written about 2 ms apart: a source that is not seekable, reports length 0, and hands out what it has (short reads) - `cat x | tool /dev/stdin`,
+/// `<(zcat x.gz)`. Returns None if no pipe could be made (no `mkfifo`): the caller counts that, it is not a verdict.
+pub fn with_fifo<T>(path: &std::path::Path, bytes: &[u8], cuts: &[usize], f: impl FnOnce(&std::path::Path) -> T) -> Option<T> {
+    use std::io::Write;
+    use std::os::unix::fs::OpenOptionsExt;
+    let _ = std::fs::remove_file(path);
+    let made = std::process::Command::new("mkfifo").arg(path).status().map(|s| s.success()).unwrap_or(false);
+    if !made {
+        return None;
+    }
+    let out = std::thread::scope(|sc| {
+        let w = sc.spawn(|| {
+            // blocks until a reader opens the pipe
+            if let Ok(mut p) = std::fs::OpenOptions::new().write(true).open(path) {
+                let mut at = 0;
+                for &c in cuts.iter().chain(std::iter::once(&bytes.len())) {
+                    let c = c.min(bytes.len());
+                    if c > at {
+                        if p.write_all(&bytes[at..c]).is_err() || p.flush().is_err() {
+                            break; // the reader went away
+                        }
+                        at = c;
+                        std::thread::sleep(std::time::Duration::from_millis(2));
+                    }
+                }
+            }
+        });
+        let r = f(path);
+        // if `f` never opened the pipe the writer is still waiting for a reader: be one, without blocking (O_NONBLOCK), then leave
+        let _ = std::fs::OpenOptions::new().read(true).custom_flags(0o4000).open(path);
+        let _ = w.join();
+        r
+    });
+    let _ = std::fs::remove_file(path);
+    Some(out)
 }
